@@ -2715,7 +2715,7 @@ class NetCDFRead(IORead):
             # variable in this case.
             # --------------------------------------------------------
             nodes_per_geometry = self.implementation.initialise_Count()
-            size = self._file_dimension_size(g["nc"], node_dimension)
+            size = g["internal_dimension_sizes"][node_dimension]
             ones = self.implementation.initialise_Data(
                 array=np.ones((size,), dtype="int32"), copy=False
             )
